@@ -83,7 +83,7 @@ int32_t psEccDsaVerify(psPool_t *pool, const psEccKey_t *key,
     pstm_digit mp;
     pstm_int *A = NULL;
     pstm_int v, w, u1, u2, e, p, m, r, s;
-    const unsigned char *c, *end;
+    const unsigned char *c, *end, *seqStart;
     int32_t err, radlen;
     psSize_t len;
 
@@ -98,6 +98,7 @@ int32_t psEccDsaVerify(psPool_t *pool, const psEccKey_t *key,
         psTraceCrypto("ECDSA subject signature parse failure 1\n");
         return err;
     }
+    seqStart = c;
     if ((err = pstm_read_asn(pool, &c, (uint16_t) (end - c), &r)) < 0)
     {
         psTraceCrypto("ECDSA subject signature parse failure 2\n");
@@ -108,6 +109,15 @@ int32_t psEccDsaVerify(psPool_t *pool, const psEccKey_t *key,
         psTraceCrypto("ECDSA subject signature parse failure 3\n");
         pstm_clear(&r);
         return err;
+    }
+    if (c != end || (psSize_t) (c - seqStart) != len)
+    {
+        /* Ecdsa-Sig-Value is SEQUENCE { r, s } and nothing else: octets
+           after s, inside or behind the SEQUENCE, are not a signature. */
+        psTraceCrypto("ECDSA subject signature parse failure 4\n");
+        pstm_clear(&s);
+        pstm_clear(&r);
+        return PS_PARSE_FAIL;
     }
 
     /* allocate ints */
